@@ -358,6 +358,13 @@ def run(model: RepoModel, rep, tier: str):
             if isinstance(n, (ast.ListComp, ast.GeneratorExp, ast.SetComp)):
                 for g in n.generators:
                     if g.ifs and any(isinstance(x, ast.Name) and x.id in frontier_vars for x in ast.walk(g.iter)):
+                        # the one legitimate filter: the loop-false exit is taken out because the loop's else body, which is entered
+                        # from the loop statement and whose own exits are added, takes its place
+                        only_loop_false = all(isinstance(c_, ast.UnaryOp) and isinstance(c_.op, ast.Not)
+                                              and any(isinstance(x, ast.Attribute) and x.attr == "LOOP_FALSE" for x in ast.walk(c_)) for c_ in g.ifs)
+                        reads_else = any(isinstance(x, ast.Attribute) and x.attr == "else_body" for x in walk_no_nested(h.node))
+                        if only_loop_false and reads_else:
+                            continue
                         probs.append((n.lineno, f"`{norm(n)}` filters a frontier: the filtered-out statements get no edge to what follows"))
         # (b) a frontier that is never read
         loops_in_h = [x for x in walk_no_nested(h.node) if isinstance(x, (ast.For, ast.While))]
@@ -476,7 +483,16 @@ def run(model: RepoModel, rep, tier: str):
     else:
         later = [m_ for m_ in muts if m_ not in lf and any(m_ in dcfg.reachable(l) for l in lf)]
         front = [c for l in lf for c in dcfg.calls_at(l) if isinstance(c.func, ast.Attribute) and c.func.attr == "insert"]
-        if later or front:
+        # a path that returns the result without the loop-false exit (constant-true condition): the popped element is something else
+        skipping = dcfg.path_avoiding(dcfg.ENTRY, dcfg.EXIT, set(lf))
+        if skipping is not None and not (later or front):
+            rets_ = [n_ for n_ in skipping if dcfg.kind.get(n_) == "stmt" and isinstance(dcfg.stmt.get(n_), ast.Return)]
+            w = rets_[-1] if rets_ else lf[0]
+            rep.violation("C04.R8", key, FILE, dcfg.stmt[w].lineno,
+                          f"{consumers[0][0].name} removes the loop-false exit from the resolver's result with pop() (the last element), but "
+                          f"{dl.name} can return without having added one (line {dcfg.stmt[w].lineno}: a constant-true loop condition): for "
+                          f"`while True: ... else:` a break is popped and loses its only outgoing edge, or pop() fails on an empty list")
+        elif later or front:
             w = later[0] if later else lf[0]
             rep.violation("C04.R8", key, FILE, dcfg.stmt[w].lineno,
                           f"{consumers[0][0].name} removes the loop-false exit from the resolver's result with pop() (the last element), but "
@@ -561,9 +577,9 @@ MUTANTS = [
      lambda src: __import__("sa.mutate", fromlist=["x"]).text_replace(src, "        previous = parent_stmts[:]\n        previous.append(\n            CFGNode(current_stmt, CONTROL_FLOW_KIND.LOOP_TRUE)\n        )\n",
                                                                      "        parent_stmts.append(CFGNode(current_stmt, CONTROL_FLOW_KIND.LOOP_TRUE))\n        previous = parent_stmts\n"),
      "analyze_dowhile_stmt::the incoming frontier is not mutated"),
-    ("loop-false-exit-first", FILE,
-     lambda src: __import__("sa.mutate", fromlist=["x"]).text_replace(src, "        result = []\n        for counter in reversed(range(len(special_stmts))):",
-                                                                     "        result = []\n        result.append(CFGNode(current_stmt, CONTROL_FLOW_KIND.LOOP_FALSE))\n        for counter in reversed(range(len(special_stmts))):"),
+    ("loop-false-exit-popped-by-position", FILE,
+     lambda src: __import__("sa.mutate", fromlist=["x"]).text_replace(src, "        last_stmts = [\n            node for node in last_stmts\n            if not (isinstance(node, CFGNode) and node.edge == CONTROL_FLOW_KIND.LOOP_FALSE)\n        ]\n",
+                                                                     "        last_stmts.pop()\n"),
      "the loop-false exit is appended last"),
     ("switch-stops-after-first-case", FILE,
      lambda src: __import__("sa.mutate", fromlist=["x"]).text_replace(src, "            last_stmts_of_previous_body = self.analyze_block(case_body, last_stmts_of_previous_body, special_stmts)\n",
